@@ -27,10 +27,12 @@ VALID = {
 NAME = {'C': 'change', 'F': 'file', 'P': 'preamble', 'M': 'meta', 'D': 'diff'}
 
 
-def invalid_variants(rng, kind):
-    """invalid-argument variants of a call: (call, reason)"""
-    if kind == 'P':
-        return rng.choice([
+INVALID = {}
+
+
+def _fill():
+    """invalid-argument variants of every call kind"""
+    INVALID['P'] = ([
             ('P', b'bytes', None, 'default', None, None),
             ('P', '', None, 'default', None, None),
             ('P', None, None, 'default', None, None),
@@ -41,10 +43,10 @@ def invalid_variants(rng, kind):
             ('P', 'text', 'utf-8\xe9', 'default', None, None),
             ('P', '\ud800', None, 2, None, None),
             ('P', 'text', None, -2, None, None),
+            ('P', 'text', None, 'default', '', None),          # invalid although falsy
             ('P', 'text', None, -1, 'dos', 'text/plain'),
         ])
-    if kind == 'M':
-        return rng.choice([
+    INVALID['M'] = ([
             ('M', {}, None, 'default'),
             ('M', ['list'], None, 'default'),
             ('M', 'str', None, 'default'),
@@ -52,16 +54,25 @@ def invalid_variants(rng, kind):
             ('M', {'k': 1}, 'no-such-codec', 'default'),
             ('M', {'k': 1}, 'enc\xe9', 'default'),
         ])
-    if kind == 'D':
-        return rng.choice([
+    INVALID['D'] = ([
             ('D', 'text', None, None, None),
             ('D', b'', None, None, None),
             ('D', b'x', 'patch', None, None),
             ('D', b'x', None, None, 'mac'),
+            ('D', b'x', None, None, ''),
+            ('D', b'x', '', None, None),
             ('D', b'x', None, 'no-such-codec', None),
             ('D', b'x', None, '\xe9', None),
         ])
-    return rng.choice([(kind, '\xe9'), (kind, 'utf-8€')])
+    for kind in 'CF':
+        INVALID[kind] = [(kind, '\xe9'), (kind, 'utf-8€')]
+
+
+_fill()
+
+
+def invalid_variants(rng, kind):
+    return rng.choice(INVALID[kind])
 
 
 def section_of(level, kind):
@@ -150,6 +161,8 @@ class Spec(object):
             after = stream.getvalue()
             if ok:
                 accepted.append(c)
+                if c in INVALID[c[0]]:
+                    bad.append('call %d (%s) accepted although its argument is invalid: %r' % (i, c[0], c[1:]))
                 if not in_order:
                     bad.append('call %d (%s) accepted although %s may not follow %s' % (i, c[0], sid, prev))
                 if not (after.startswith(before) and len(after) > len(before)):
